@@ -381,3 +381,52 @@ fn c02_twin_check_mic_decrypt_20_03() { twin_check_mic_decrypt(20, 0x03) }
 #[kani::proof]
 #[kani::unwind(42)]
 fn c02_twin_check_mic_decrypt_30_2f() { twin_check_mic_decrypt(30, 0x2f) }
+
+// ------------------------------------------------------------------------------------------------ direct twin of securityhelpers::encrypt_frm_data_payload
+// The Verus unit proves the AES-CTR composition for every length; its proof text is anchored in the loop, so a REWRITE of the
+// loop (iterator style, chunking) leaves the Verus route undecided (lost anchor: exit 2, never an alarm) and the build/decode
+// twins above become expensive.  This twin calls the helper itself on concrete ranges that span one, two and three key-stream
+// blocks and states the LoRaWAN 1.0.x 4.3.3 contract over the recording crypto: S_i = aes(K, A_i) with A_i = 01 | 0^4 | Dir |
+// DevAddr | FCnt | 00 | i, every block from its OWN A_i; payload ^= S; nothing outside [start, end) changes.
+fn twin_encrypt_range(start: usize, len: usize) {
+    tape::init();
+    let mut buf: [u8; 48] = [0; 48];
+    { let a: [u8; 24] = tape::arr(); let b: [u8; 24] = tape::arr(); let mut i = 0; while i < 24 { buf[i] = a[i]; buf[24 + i] = b[i]; i += 1; } }
+    let old = buf;
+    let fcnt = tape::u32();
+    let end = start + len;
+    crate::securityhelpers::encrypt_frm_data_payload(&mut buf[..], start, end, fcnt, &RecCrypto);
+    let g = unsafe { &*(&raw const LOG) };
+    let nblk = (len + 15) / 16;
+    assert!(!g.bad && g.enc_calls as usize == nblk && g.dec_calls == 0 && g.mic_calls == 0, "C01/C02 one AES-encrypted key-stream block per 16 payload bytes, nothing else");
+    let fb = fcnt.to_le_bytes();
+    let dir = (old[0] & 0x20) >> 5;
+    let mut k = 0;
+    while k < 3 {
+        if k < nblk {
+            let a = g.blocks_in[k];
+            assert!(a[0] == 1 && a[1..5] == [0u8; 4] && a[5] == dir && a[6..10] == old[1..5] && a[10..14] == fb && a[14] == 0 && a[15] == k as u8 + 1,
+                "C01/C02 A_i = 01 | 0^4 | Dir | DevAddr | FCnt (32 bit) | 00 | i -- each key-stream block from its OWN A_i");
+        }
+        k += 1;
+    }
+    let mut j = 0;
+    while j < 48 {
+        if j >= start && j < end { assert!(buf[j] == old[j] ^ g.blocks_out[(j - start) / 16][(j - start) % 16], "C01/C02 FRMPayload xor key stream, block by block"); }
+        else { assert!(buf[j] == old[j], "C02 nothing outside the FRMPayload changes"); }
+        j += 1;
+    }
+    kani::cover!(true, "verif-reached: end");
+}
+// @verif props=C01,C02 obligation=encrypt_frm_data_payload.twin[9..14] label=bounded(lengths) tier=quick unit=encrypt_frm_data_payload bound="payload of 5 bytes at offset 9 (one block); content, header, counter, key-stream outputs symbolic"
+#[kani::proof]
+#[kani::unwind(50)]
+fn c02_twin_encrypt_1block() { twin_encrypt_range(9, 5) }
+// @verif props=C01,C02 obligation=encrypt_frm_data_payload.twin[9..26] label=bounded(lengths) tier=quick unit=encrypt_frm_data_payload bound="payload of 17 bytes at offset 9 (two blocks)"
+#[kani::proof]
+#[kani::unwind(50)]
+fn c02_twin_encrypt_2blocks() { twin_encrypt_range(9, 17) }
+// @verif props=C01,C02 obligation=encrypt_frm_data_payload.twin[10..43] label=bounded(lengths) tier=quick unit=encrypt_frm_data_payload bound="payload of 33 bytes at offset 10 (three blocks)"
+#[kani::proof]
+#[kani::unwind(50)]
+fn c02_twin_encrypt_3blocks() { twin_encrypt_range(10, 33) }
